@@ -17,6 +17,10 @@ claimed = {
    text="Seeded search over neverStop fans (hwmon with configured or curve-derived minimum, file, cmd), algorithms and rotor-stall episodes injected into the fan plant; per control cycle the request (observed as PWM file content through identity read-back) is compared with the reference floor, raises must be strict and permanent, the reported minimum must never drop.",
    note=L1NOTE+"Requests are only observable for identity maps; startPwm is not configured without minPwm here.",
    tech="deterministic simulation with plant-stall fault injection, per-cycle floor/raise invariants"),
+ "C04": dict(cat="exploration", ref="§3/C04",
+   text="Relational oracle over batches of simulated executions in virtual time (hours of idling cost seconds): per setting (min,max,c,m,tick) fresh starts from several starting requests for direct, rate-limited and default-PID loops and executions with prior histories; settle bound self-calibrated from the fresh starts, steady value independent of start/history, S(0)=min, S(255)=max, monotone in c, equal across algorithms (PID within 1), step bound and monotone approach.",
+   note=L1NOTE+"Starting requests and settings are sampled, idle histories capped at 3000 cycles per execution; the fan always reports rotation.",
+   tech="deterministic simulation in virtual time, relational (metamorphic) oracle across executions"),
  "C05": dict(cat="exploration", ref="§3/C05",
    text="Seeded search over third-party interference instants (by virtual time and by scheduler decision index, between and inside control cycles), externally written modes/PWM values, curve trajectories, algorithms and read-back-faithful PWM maps, against the real controller + real hwmon fan code in virtual time; oracle on driver files and the public statistics after the next full cycle. A clean batch is evidence, not proof.",
    note=L1NOTE+"Interference that lands inside a running cycle is only required to be undone and counted at most once.",
